@@ -13,6 +13,7 @@ import (
 func init() {
 	checks["C06"] = c06
 	checks["C07"] = c07chain
+	checks["C02:warm"] = c02warm
 }
 
 func fieldsInput(kv ...string) map[string]any {
@@ -87,5 +88,23 @@ func c07chain(run *ev.Run) {
 		Envs: envs.Cache}
 	run.Rule = "every action sequence up to the depth bound over settings updates (successful, failing late after mutating the value returned by a read) and readers of the cached settings nodes; each transition executed with a cold cache (trie only), with the cache warmed by exactly the path's own blocks, and with one cache shared by all forks explored by the worker; outcomes must be identical"
 	run.Assumptions = []string{"cacheable entity types reached: minersc GlobalNode, storagesc Config, settings nodes; partitions/allocation/miner-node entities are covered by the scenario binaries' own cache parts when present"}
+	d.Run()
+}
+
+// c02warm: part "warm" of C02 — a failed call must leave nothing behind for LATER transactions either.
+// The failed transaction's own trie diff (part main) cannot see a write that survives only in the
+// state cache; here every sequence of late-failing writers, one successful writer and readers is
+// executed with the cache warmed by exactly the path's own blocks and compared with cold execution.
+// Only the linear (lineage) cache is used: the known fork-tree defect of the dependency's cache (C07)
+// cannot occur on a linear history.
+func c02warm(run *ev.Run) {
+	w := world.New(world.Options{})
+	kvsc.Register()
+	acts := append(kvLateFailures(w), kv(w, "c1", "get2", kget("a"), kget("a")), kv(w, "c1", "rmw", kget("a"), kput("a", "7")), kv(w, "c1", "rmw-b", kget("b"), kput("b", "7")))
+	acts = append(acts, governanceAlphabet(w)[:9]...)
+	e := &chainsim.Explorer{Run: run, W: w, Actions: acts, Depth: run.Pick(3, 4), Budget: time.Duration(run.Pick(50, 600)) * time.Second}
+	d := &chainsim.Differential{E: e, Prop: "C02", WarmLineage: true, KeyPrefix: "C02:warm", Envs: envs.Cache}
+	run.Rule = "every action sequence up to the depth bound over calls that fail AFTER writing / deleting cacheable values (test contract and settings updates failing late), one successful writer, and readers / read-modify-writers of the same keys; each transition executed with a cold cache (trie only) and with the cache warmed by exactly the path's own blocks; (error, status, output, state root, change count, events) must be identical, i.e. nothing a failed call wrote is visible to a later transaction"
+	run.Assumptions = []string{"linear histories only (fork-shared caches belong to C07)", "one transaction per block: the leak path failed txn -> block cache -> state cache -> later block is covered, two transactions inside one block are not"}
 	d.Run()
 }
